@@ -108,3 +108,66 @@ Proof.
   split; [split; [intros H; vm_compute in H; discriminate|intros H; vm_compute in H; discriminate]|].
   repeat split; reflexivity.
 Qed.
+
+(* ------------------------------------------------------------------ translated index arithmetic
+   (Gen/GenL2Arith.v is regenerated from field_wrap_BH.py on every run) *)
+Close Scope Z_scope.
+From Coq Require Import String.
+From MV Require Import Model.L2Arith Gen.GenL2Arith Proofs.L2ArithProofs.
+Open Scope string_scope.
+
+Theorem C04_model_uses_translated_arith : arith = expected_arith.
+Proof. exact model_uses_translated_arith. Qed.
+
+(* pix_inds = np.cumsum([0] + pix_nums), pix_slice = slice(pix_inds[k], pix_inds[k + 1]): the loop of
+   the source over these slices is the model's rotate_sensors with its running offsets *)
+Theorem C04_pix_slices_translated : forall {O : RigidOps} (g_eqb : G -> G -> bool) (flipx : V -> V)
+    (ss : list (sensor * sensor)) (B : list block),
+  get "_getBH_level2" "assign" "pix_inds" 0 arith
+    = PCall (PAttr (PName "np") "cumsum") [PBin "+" (PList [PInt 0]) (PName "pix_nums")] [] /\
+  rotate_idx g_eqb flipx (cumsum_from 0 (map (fun p => List.length (s_pix (snd p))) ss)) ss 0 B
+  = rotate_sensors g_eqb flipx ss 0 B.
+Proof. exact @pix_slices_translated. Qed.
+
+(* pixel_agg over axis=tuple(range(3 - B.ndim, -1)) = all pixel axes 3 .. ndim-2 *)
+Theorem C04_agg_axes_translated : forall nd : nat, (4 <= nd)%nat ->
+  kwarg "axis" (get "_getBH_level2" "assign" "B" 3 arith) = PCall (PName "tuple") [e_agg_range] [] /\
+  (exists lo hi, e_agg_range = PCall (PName "range") [lo; hi] [] /\
+     evalZ (bind "B.ndim" (Z.of_nat nd) env0) lenv0 lo = Some (3 - Z.of_nat nd)%Z /\
+     evalZ env0 lenv0 hi = Some (-1)%Z) /\
+  norm_axes (Z.of_nat nd) (3 - Z.of_nat nd) (-1) = seq 3 (nd - 4).
+Proof. exact agg_axes_translated. Qed.
+
+(* np.split(B, pix_inds[1:-1], axis=2) gives every sensor its own pixel block *)
+Theorem C04_split_translated : forall {A} (nums : list nat) (l : list A),
+  nums <> [] -> List.length l = fold_right Nat.add 0%nat nums ->
+  arg 1 (get "_getBH_level2" "assign" "Bsplit" 0 arith)
+    = PSub (PName "pix_inds") (PSlice (Some (PInt 1)) (Some (PInt (-1)))) /\
+  kwarg "axis" (get "_getBH_level2" "assign" "Bsplit" 0 arith) = PInt 2 /\
+  np_split (py_slice 1 (-1) (cumsum_from 0 nums)) l = split_lens nums l.
+Proof. exact @split_translated. Qed.
+Print Assumptions C04_model_uses_translated_arith.
+Print Assumptions C04_pix_slices_translated.
+Print Assumptions C04_agg_axes_translated.
+Print Assumptions C04_split_translated.
+
+(* ------------------------------------------------------------------ the physical instance: V = R^3,
+   G = SO(3) (Lib/RigidR3.v) *)
+From MV Require Lib.RigidR3.
+Theorem C04_sensor_spec_R3 : forall (P : Type) (F : nat -> P -> RigidR3.V3 -> RigidR3.V3)
+    (g_eqb : RigidR3.SO3 -> RigidR3.SO3 -> bool) (flipx : RigidR3.V3 -> RigidR3.V3),
+  (forall a b, g_eqb a b = true -> a = b) ->
+  forall (srcs : list (@srcin RigidR3.R3Ops P)) (sens : list (@sensor RigidR3.R3Ops)) l m k p dsrc dsens,
+  srcs <> [] -> Forall (wf_src (O := RigidR3.R3Ops) P) srcs -> Forall wf_sensor sens -> wf_shapes sens None ->
+  (l < List.length srcs)%nat -> (m < path_len (O := RigidR3.R3Ops) P srcs sens)%nat -> (k < List.length sens)%nat ->
+  (p < List.length (s_pix (nth k sens dsens)))%nat ->
+  let s := nth k sens dsens in
+  let Rm := clip_nth RigidR3.so3_one (s_ori s) m in
+  let Pm := clip_nth RigidR3.v3zero (s_pos s) m in
+  let w := RigidR3.so3_act (RigidR3.so3_inv Rm)
+             (global_field (O := RigidR3.R3Ops) P F (nth l srcs dsrc) m
+                (RigidR3.v3add (RigidR3.so3_act Rm (nth p (s_pix s) RigidR3.v3zero)) Pm)) in
+  nth p (nth k (nth m (nth l (getBH (O := RigidR3.R3Ops) P F g_eqb flipx srcs sens None false) []) []) []) RigidR3.v3zero
+  = if s_left s then flipx w else w.
+Proof. exact (@C04_sensor_spec RigidR3.R3Ops RigidR3.R3Laws). Qed.
+Print Assumptions C04_sensor_spec_R3.
